@@ -1,7 +1,7 @@
 // Harness of the runner family (C13 lock discipline, C14 protocol).  Compiled into /repo's
 // working tree with `go build -overlay` as cmd/verif_runner.
 //
-//   verif_runner c13|c14 <seed> <budget> [stress]
+//   verif_runner c13|c14|stress <seed> <budget> [stress]
 //
 // prints one observation per line for the model driver (ocaml/runner_main.ml):
 //   TR <scenario> <tid:role,...> <event> <event> ... [DEADLOCK|HANG]    one logged schedule
@@ -41,6 +41,10 @@ func main() {
 		mu.Unlock()
 	}
 	rng := rand.New(rand.NewSource(seed))
+	if mode == "stress" {
+		stress(rng, emit)
+		return
+	}
 
 	// 1. bounded enumeration: every combination of choices inside sliding windows of decisions
 	per := budget / 4
@@ -62,7 +66,11 @@ func main() {
 	}
 	if mode == "c14" {
 		// real 1 ms ticker: ticks are nondeterministic
-		for k := 0; k < budget/40+3; k++ {
+		nt := budget/40 + 3
+		if nt > 120 {
+			nt = 120
+		}
+		for k := 0; k < nt; k++ {
 			emit(runSchedule(tickScenario(), func(n int) int { return rng.Intn(n) }))
 		}
 		rounds := 2
